@@ -3,4 +3,10 @@ EXTENDS Timers
 CB(i, s, d, n, b) == [interval |-> i, sharp |-> s, idle |-> d, initdelay |-> n, backoff |-> b]
 C(i, s, d, n) == CB(i, s, d, n, 2)
 AllConfs == {C(3, FALSE, 0, 0), C(3, TRUE, 0, 1), C(3, FALSE, 2, 0), C(2, TRUE, 3, 2), C(0, FALSE, 2, 0), C(0, FALSE, 0, 0), C(2, FALSE, 0, 2), CB(3, FALSE, 0, 0, 0), CB(0, FALSE, 2, 0, 0)}
+\* the object stops matching the timer's filters and matches again (at most MaxToggles toggles)
+CONSTANT MaxToggles
+VARIABLE ntog
+MInit == Init /\ ntog = 0
+MNext == (Next /\ UNCHANGED ntog) \/ (ntog < MaxToggles /\ ntog' = ntog + 1 /\ (IF matching THEN Unmatch ELSE Rematch))
+MSpec == MInit /\ [][MNext]_<<vars, ntog>>
 =============================================================================
